@@ -36,10 +36,41 @@ func ParseHeaders(raw *string) map[string]string {
 	return MakeHeadersLowercase(res)
 }
 
+// isHeaderToken reports whether name is an RFC 7230 token, i.e. a legal
+// HTTP header field name (in particular it contains no ':' and no line break).
+func isHeaderToken(name string) bool {
+	if name == "" {
+		return false
+	}
+	for i := 0; i < len(name); i++ {
+		c := name[i]
+		switch {
+		case c >= 'a' && c <= 'z', c >= 'A' && c <= 'Z', c >= '0' && c <= '9':
+		case strings.IndexByte("!#$%&'*+-.^_`|~", c) >= 0:
+		default:
+			return false
+		}
+	}
+	return true
+}
+
+var headerValueLineBreaks = strings.NewReplacer("\r", "", "\n", "")
+
+// DumpHeaders writes one `name:value` line per header. The proxy splits this
+// dump at line breaks and at ':', so a header whose name is not a valid HTTP
+// token is dropped and line breaks are removed from values: no header can
+// be mis-read as another one or smuggle additional headers.
 func DumpHeaders(headers map[string]string) string {
-	pairs := lo.MapToSlice(headers,
-		func(k string, v string) string { return fmt.Sprintf("%s:%s", k, v) },
-	)
+	pairs := make([]string, 0, len(headers))
+	for k, v := range headers {
+		if !isHeaderToken(k) {
+			log.Warn().Str("header", k).
+				Msg("header name is not a valid HTTP token, header dropped")
+			continue
+		}
+		pairs = append(pairs,
+			fmt.Sprintf("%s:%s", k, headerValueLineBreaks.Replace(v)))
+	}
 	concatenated := strings.Join(pairs, "\n")
 	return fmt.Sprintf("%s\n", concatenated)
 }
